@@ -1338,7 +1338,14 @@ class VectorVariable:
         if isinstance(other, MatrixVectorProduct):
             # Check if the MatrixVectorProduct's vector is self
             if isinstance(other.vector, VectorVariable):
-                if other.vector is self or other.vector.name == self.name:
+                same_elements = other.vector is self or (
+                    len(other.vector._variables) == len(self._variables)
+                    and all(
+                        a is b
+                        for a, b in zip(other.vector._variables, self._variables)
+                    )
+                )
+                if same_elements:
                     # This is x.dot(A @ x) - return QuadraticForm for O(1) gradient
                     return QuadraticForm(self, other.matrix)
 
